@@ -15,6 +15,7 @@ import (
 	"github.com/pgavlin/dawn/internal/verif/vos"
 	"github.com/pgavlin/dawn/internal/verif/vsched"
 	"github.com/pgavlin/dawn/label"
+	"github.com/pgavlin/dawn/util"
 	"go.starlark.net/starlark"
 )
 
@@ -167,6 +168,7 @@ func (r *recorder) RunDone(err error) { r.add(Event{Kind: "RunDone", Err: es(err
 // ---- builtins available to target bodies ----------------------------------------------------------
 
 type bodyEnv struct {
+	chunks []string // what chunks() returns (line-writer check)
 	root   string
 	fail   map[string]bool
 	mu     sync.Mutex
@@ -209,6 +211,20 @@ func (b *bodyEnv) builtins() starlark.StringDict {
 			}
 			return starlark.None, nil
 		}),
+		"say": starlark.NewBuiltin("say", func(t *starlark.Thread, fn *starlark.Builtin, args starlark.Tuple, kw []starlark.Tuple) (starlark.Value, error) {
+			stdout, _ := util.Stdio(t)
+			if _, err := stdout.Write([]byte(str(args[0]))); err != nil {
+				return nil, err
+			}
+			return starlark.None, nil
+		}),
+		"chunks": starlark.NewBuiltin("chunks", func(t *starlark.Thread, fn *starlark.Builtin, args starlark.Tuple, kw []starlark.Tuple) (starlark.Value, error) {
+			var vs []starlark.Value
+			for _, c := range b.chunks {
+				vs = append(vs, starlark.String(c))
+			}
+			return starlark.NewList(vs), nil
+		}),
 		"slurp": starlark.NewBuiltin("slurp", func(t *starlark.Thread, fn *starlark.Builtin, args starlark.Tuple, kw []starlark.Tuple) (starlark.Value, error) {
 			c, err := os.ReadFile(filepath.Join(b.root, filepath.FromSlash(str(args[0]))))
 			if err != nil {
@@ -244,6 +260,7 @@ type buildResult struct {
 	Executed map[string]bool   // function-target labels whose body started
 	StepAt   map[string]int
 	Sched    *vsched.Result
+	finish   func() // (re)captures events, steps and the tree; called again once every thread has finished
 }
 
 // controlled: run every build under the vsched scheduler (the binary is then built with the
@@ -251,6 +268,7 @@ type buildResult struct {
 var controlled bool
 
 type ctlOpts struct {
+	muted    bool // Load on the default schedule; choices start at Run
 	prefix   []int
 	onEffect func(idx int, desc string)
 }
@@ -274,7 +292,7 @@ func buildCtl(root string, v Vars, o buildOpts, c ctlOpts) *buildResult {
 	}
 	var res *buildResult
 	vos.ResetTemp()
-	sr := vsched.Execute(c.prefix, vsched.Options{NumCPU: 2, OnEffect: c.onEffect, Horizon: 50000}, func() {
+	sr := vsched.Execute(c.prefix, vsched.Options{NumCPU: 2, OnEffect: c.onEffect, Horizon: 50000, Muted: c.muted}, func() {
 		res = buildRaw(root, v, o)
 	})
 	if res == nil {
@@ -282,6 +300,9 @@ func buildCtl(root string, v Vars, o buildOpts, c ctlOpts) *buildResult {
 		res.After = readTree(root)
 	}
 	res.Sched = sr
+	if res.finish != nil {
+		res.finish() // every thread has finished now (targets may outlive Run after a cycle error)
+	}
 	return res
 }
 
@@ -306,6 +327,7 @@ func buildRaw(root string, v Vars, o buildOpts) *buildResult {
 	if o.SnapLoad {
 		res.AfterLd = readTree(root)
 	}
+	vsched.Unmute()
 	if o.GC {
 		res.RunErr = proj.GC()
 	} else {
@@ -315,18 +337,26 @@ func buildRaw(root string, v Vars, o buildOpts) *buildResult {
 		}
 		res.RunErr = proj.Run(l, &dawn.RunOptions{Always: o.Always, DryRun: o.Dry})
 	}
-	res.Events = rec.ev
-	res.Steps = be.steps
-	res.StepAt = be.stepAt
-	res.Emits = be.emits
-	res.After = readTree(root)
-	for _, s := range be.steps {
-		for _, t := range []string{tGen, tMid, tTop, tLeaf, tOther} {
-			if bodyName(t) == s {
-				res.Executed[t] = true
+	res.finish = func() {
+		rec.mu.Lock()
+		res.Events = append([]Event{}, rec.ev...)
+		rec.mu.Unlock()
+		be.mu.Lock()
+		res.Steps = append([]string{}, be.steps...)
+		res.StepAt = be.stepAt
+		res.Emits = append([]string{}, be.emits...)
+		be.mu.Unlock()
+		res.After = readTree(root)
+		res.Executed = map[string]bool{}
+		for _, s := range res.Steps {
+			for _, t := range []string{tGen, tMid, tTop, tLeaf, tOther} {
+				if bodyName(t) == s {
+					res.Executed[t] = true
+				}
 			}
 		}
 	}
+	res.finish()
 	return res
 }
 
